@@ -68,7 +68,21 @@ pub fn event(ws: usize, lit: &[u8], follow: &[u8], origin: &str) -> J {
     lossy.insert("key_copy".into(), run(|| Deserializer::from_slice(&in_arr_key).utf8_lossy().deserialize::<(Value,)>().map(|v| match v.0.as_object().and_then(|o| o.iter().next()) { Some((k, _)) => okj(k, None), None => json!({"ok":false,"panic":false,"notstr":true}) })));
     lossy.insert("cow_between".into(), run(|| Deserializer::from_slice(&between).utf8_lossy().deserialize::<BetweenLossy>().map(|b| { let bo = matches!(b.s, Cow::Borrowed(_)); okj(&b.s, Some(bo)) })));
     lossy.insert("map_key".into(), run(|| Deserializer::from_slice(&as_key).utf8_lossy().deserialize::<HashMap<String, u8>>().map(|m| okj(m.keys().next().unwrap(), None))));
-    json!({"ev":"str","origin":origin,"ws":ws,"lit":bytes_j(lit),"follow":bytes_j(follow_top(follow)),"res":res,"lossy":lossy})
+    let mut ev = json!({"ev":"str","origin":origin,"ws":ws,"lit":bytes_j(lit),"follow":bytes_j(follow_top(follow)),"res":res,"lossy":lossy});
+    // a build of sonic-rs with the `utf8_lossy` feature: the plain entry points are lossy decoders themselves
+    #[cfg(feature = "utf8_lossy")]
+    {
+        let mut fl = serde_json::Map::new();
+        fl.insert("dom_inplace".into(), run(|| sonic_rs::from_slice::<Value>(&top).map(|v| match v.as_str() { Some(s) => okj(s, None), None => json!({"ok":false,"panic":false,"notstr":true}) })));
+        fl.insert("dom_copy".into(), run(|| sonic_rs::from_slice::<(Value,)>(&in_arr).map(|v| match v.0.as_str() { Some(s) => okj(s, None), None => json!({"ok":false,"panic":false,"notstr":true}) })));
+        fl.insert("string".into(), run(|| sonic_rs::from_slice::<String>(&top).map(|s| okj(&s, None))));
+        fl.insert("string_in_seq".into(), run(|| sonic_rs::from_slice::<Vec<String>>(&in_arr).map(|s| okj(&s[0], None))));
+        fl.insert("key_copy".into(), run(|| sonic_rs::from_slice::<(Value,)>(&in_arr_key).map(|v| match v.0.as_object().and_then(|o| o.iter().next()) { Some((k, _)) => okj(k, None), None => json!({"ok":false,"panic":false,"notstr":true}) })));
+        fl.insert("key_inplace".into(), run(|| sonic_rs::from_slice::<Value>(&as_key).map(|v| match v.as_object().and_then(|o| o.iter().next()) { Some((k, _)) => okj(k, None), None => json!({"ok":false,"panic":false,"notstr":true}) })));
+        fl.insert("map_key".into(), run(|| sonic_rs::from_slice::<HashMap<String, u8>>(&as_key).map(|m| okj(m.keys().next().unwrap(), None))));
+        ev["flossy"] = J::Object(fl);
+    }
+    ev
 }
 fn follow_top(f: &[u8]) -> &[u8] { f }
 
